@@ -33,6 +33,11 @@ Definition tr_conf_line (g_text : gstr) : option (list conf_effect) :=
 (* ... and the statements around it are the pinned ones (scanner over the token, ScanLines, the scanner's error returned) *)
 Definition tr_conf_line_frame : bool := true.
 
+(* the cases xml.StartElement (re-enter the child of that name or make a node, push) and xml.EndElement (name check, pop), pinned: the model mirrors them by hand *)
+Definition tr_conf_tag_cases_frame : bool := true.
+(* InitFromBytes outside the three token cases: one element stack seeded with the root, Decoder.Token(), a token error other than io.EOF is returned, nil at the end *)
+Definition tr_conf_decode_loop_frame : bool := true.
+
 (* elem.analysisPath *)
 Definition tr_analysisPath (g_path : gstr) : option (list gstr) :=
   let g_pathVec := (gs_split g_path ([47]%N : gstr)) in
